@@ -267,7 +267,7 @@ def s_binop(draw):
     n = x["sig"]["n"]
     y = draw(s_operand(n, x["cls"], x["npol"]))
     if huge and y["kind"] in ("str", "bits", "list", "tuple"):
-        y["kind"], y["spec"] = "obj", draw(s_signal(n=y["L"], cls=x["cls"], npol=x["npol"], fams=["smallint", "unif"]))
+        y["kind"], y["refl"], y["spec"] = "obj", False, draw(s_signal(n=y["L"], cls=x["cls"], npol=x["npol"], fams=["smallint", "unif"]))
     if huge and y["kind"] == "obj" and draw(st.booleans()):
         y["spec"]["sig"]["dt"] = x["sig"]["dt"]              # same dtype on both sides
         if y["spec"]["noise"]:
